@@ -8,7 +8,6 @@ import (
 	"go/token"
 	"go/types"
 	"math"
-	"reflect"
 )
 
 func init() {
@@ -483,33 +482,6 @@ func singleReturn(b *ast.BlockStmt) *ast.ReturnStmt {
 	}
 	r, _ := b.List[0].(*ast.ReturnStmt)
 	return r
-}
-
-func containsNode(root ast.Node, target ast.Node) bool {
-	if root == nil || target == nil || reflect.ValueOf(root).IsNil() {
-		return false
-	}
-	found := false
-	ast.Inspect(root, func(n ast.Node) bool {
-		if n == target {
-			found = true
-		}
-		return !found
-	})
-	return found
-}
-
-func (c *Ctx) constNumber(e ast.Expr) (float64, bool) {
-	tv, ok := c.Info.Types[e]
-	if !ok || tv.Value == nil {
-		return 0, false
-	}
-	switch tv.Value.Kind() {
-	case constant.Int, constant.Float:
-		f, _ := constant.Float64Val(constant.ToFloat(tv.Value))
-		return f, true
-	}
-	return 0, false
 }
 
 // declaredZeroObj: v is declared by `var v T` without initialiser, or with a false constant.
